@@ -71,6 +71,19 @@ def handler_table(S):
     return names, sources, free, draws
 
 
+def free_names(fn):
+    """every name a function reads that is neither a parameter nor a local variable, and the attributes of `self` it touches"""
+    params = {a.arg for a in fn.args.args + fn.args.kwonlyargs}
+    local = {n.id for n in ast.walk(fn) if isinstance(n, ast.Name) and isinstance(n.ctx, (ast.Store, ast.Del))}
+    fr = set()
+    for n in ast.walk(fn):
+        if isinstance(n, ast.Name) and isinstance(n.ctx, ast.Load) and n.id not in params and n.id not in local:
+            fr.add(n.id)
+        if isinstance(n, ast.Attribute) and isinstance(n.value, ast.Name) and n.value.id == "self":
+            fr.add("self." + n.attr)
+    return sorted(fr)
+
+
 def rng_texts(S):
     out = {}
     def text(fn):
@@ -81,6 +94,14 @@ def rng_texts(S):
         if m not in S.RNG.__dict__:
             raise KeyError("RNG." + m)
         out["RNG." + m] = text(S.RNG.__dict__[m])
+    # the state around the handlers: what the dispatcher, update_state and the state's reset read
+    for label, fn in (("RandomUDSServer.respond_after_default", S.RandomUDSServer.respond_after_default),
+                      ("RandomUDSServer.update_state", S.RandomUDSServer.update_state),
+                      ("UDSServer.update_state", S.UDSServer.update_state),
+                      ("RNGEcuState.__init__", S.RNGEcuState.__init__),
+                      ("RNGEcuState.reset", S.RNGEcuState.reset)):
+        out["free:" + label] = ",".join(free_names(_fn_ast(fn)))
+    out["RNGEcuState.members"] = ",".join(sorted(k for k in S.RNGEcuState.__dict__ if not k.startswith("__") or k == "__init__"))
     out["RNG.bases"] = ",".join(b.__module__ + "." + b.__qualname__ for b in S.RNG.__bases__)
     out["RNG.members"] = ",".join(sorted(k for k in S.RNG.__dict__ if not (k.startswith("__") and k != "__init__")))
     return out
